@@ -556,7 +556,7 @@ def note_array_to_score(
         else:
             beat_type = 4
         difference_from_zero = (0 - last_neg_beat) * divs * (4 / beat_type)
-        anacrusis_divs = int(last_neg_divs + difference_from_zero)
+        anacrusis_divs = int(round(last_neg_divs + difference_from_zero))
 
     # Create the part
     part = create_part(
